@@ -89,6 +89,9 @@ func checkDecodeAgainstModel(c decCase) (core.Verdict, *Failure) {
 		}
 	}
 	// success: n and value
+	if herr := b.CheckHeaders(dest.Elem()); herr != nil {
+		return verdict, failf("malformed-slice", "decoded object holds a malformed slice header: %v; msg %s", herr, hexs(c.Msg))
+	}
 	if n != verdict.N {
 		return verdict, failf("consumed-wrong", "DecodeObject returned n=%d, the top-level STOP ends at %d (input %d bytes)", n, verdict.N, len(c.Msg))
 	}
